@@ -24,6 +24,7 @@ generated programs against the real server.
 import LuaHelper.Model.Scope
 import LuaHelper.Spec.Bind
 import LuaHelper.Gen.Preds
+import LuaHelper.Gen.Shapes
 namespace LuaHelper.C05
 open LuaHelper.Lex LuaHelper.Scope
 
@@ -249,6 +250,16 @@ theorem scopePath_ends (line col : Int) (t : Tree) (ch : List Tree) (h : ScopePa
     | nil => simp at hm
     | cons x r => simpa using hm
 #print axioms scopePath_ends
+
+/-- the Go function has exactly the control structure of the model `chainIn` / `scanSubs` (regenerated from
+    scope_info.go on every run): the guard, the loop over SubScopes, "ends before the line → continue",
+    "contains the position → recurse and stop", and nothing else — in particular no early exit -/
+theorem find_min_scope_shape :
+    Gen.findMinScopeShape = ["guard:!isInLocation(&scope.Loc,line,column)", "range:scope.SubScopes",
+      "if:subScope.Loc.EndLine<line=>continue",
+      "if:isInLocation(&subScope.Loc,line,column)=>minScope=subScope.FindMinScope(line,column);break"] := by
+  decide
+#print axioms find_min_scope_shape
 
 /-- the scenario of the repaired defect (fix 24205bf): the sub-scopes are in traversal order — the step
     closure of a numeric for (lines 9-11) is listed before the limit closure (lines 7-9) — and the cursor is in
